@@ -4,11 +4,12 @@ Local Open Scope N_scope.
 Lemma run_data chunks : run (map Data chunks) = (concat chunks, false).
 Proof. induction chunks as [|c r IH]; cbn [map run concat]; [reflexivity|]. rewrite IH. reflexivity. Qed.
 
-Lemma run_fail sc : In Fail sc -> snd (run sc) = true.
-Proof.
-  induction sc as [|e r IH]; [contradiction|]. intros [->|H]; [reflexivity|].
-  destruct e as [c|]; [|reflexivity]. cbn [run]. specialize (IH H). destruct (run r). exact IH.
-Qed.
+(* a failure that is reached: after any number of successful reads, before the stream has ended *)
+Lemma run_fail pre post : snd (run (map Data pre ++ Fail :: post)) = true.
+Proof. induction pre as [|c r IH]; cbn [map app run]; [reflexivity|]. destruct (run (map Data r ++ Fail :: post)). exact IH. Qed.
+
+Lemma run_data_eof chunks c : run (map Data chunks ++ [DataEof c]) = (concat chunks ++ c, false).
+Proof. induction chunks as [|x r IH]; cbn [map app run concat]; [reflexivity|]. rewrite IH, app_assoc. reflexivity. Qed.
 
 Section Thms.
   Variable st : Type.
@@ -32,10 +33,24 @@ Section Thms.
   Qed.
 
   (* a read failure anywhere in the stream is an error: never a token, never a CID *)
-  Theorem read_fault_surfaces (A : Type) (decode : str -> res A) sc :
-    In Fail sc -> from_sealed_reader st h_init h_update h_final A decode sc = Err 1.
+  Theorem read_fault_surfaces (A : Type) (decode : str -> res A) pre post :
+    from_sealed_reader st h_init h_update h_final A decode (map Data pre ++ Fail :: post) = Err 1.
   Proof.
-    intros H. unfold from_sealed_reader. pose proof (run_fail sc H) as Hf. destruct (run sc) as [b f]. cbn in Hf. subst f. reflexivity.
+    unfold from_sealed_reader. pose proof (run_fail pre post) as Hf. destruct (run _) as [b f]. cbn in Hf. subst f. reflexivity.
+  Qed.
+
+  Lemma cid_reader_data_eof chunks c : forall s,
+    cid_reader st h_update (map Data chunks ++ [DataEof c]) s = (fold_left h_update (chunks ++ [c]) s, false).
+  Proof. induction chunks as [|x r IH]; intros s; cbn [map app cid_reader fold_left]; [reflexivity|apply IH]. Qed.
+
+  (* the last bytes may arrive together with the end of the stream: same token, same CID *)
+  Theorem chunking_invariant_data_with_eof (A : Type) (decode : str -> res A) chunks c :
+    from_sealed_reader st h_init h_update h_final A decode (map Data chunks ++ [DataEof c])
+    = from_sealed sha256 A decode (concat chunks ++ c).
+  Proof.
+    unfold from_sealed_reader, from_sealed. rewrite run_data_eof.
+    destruct (decode (concat chunks ++ c)); try reflexivity.
+    rewrite cid_reader_data_eof. unfold cid_of_state, cid_of. rewrite h_stream, concat_app. cbn [concat]. rewrite app_nil_r. reflexivity.
   Qed.
 
   (* ---- writers ---- *)
